@@ -623,7 +623,11 @@ func (r *Reader) RefsFor(oid []byte) (*Iterator, error) {
 	if r.offsets[blockTypeObj].Present {
 		return r.refsForIndexed(oid)
 	}
+	return r.refsForLinear(oid)
+}
 
+// refsForLinear finds the refs pointing to `oid` by scanning all refs.
+func (r *Reader) refsForLinear(oid []byte) (*Iterator, error) {
 	it, err := r.start(blockTypeRef, false)
 	if err != nil {
 		return nil, err
@@ -661,6 +665,12 @@ func (r *Reader) refsForIndexed(oid []byte) (*Iterator, error) {
 	}
 	if !ok || got.key() != want.key() {
 		return &Iterator{&emptyIterator{}}, nil
+	}
+	if len(got.Offsets) == 0 {
+		// The writer omits a position list that does not fit in a
+		// block; the object is indexed, but its refs must be found
+		// by scanning.
+		return r.refsForLinear(oid)
 	}
 
 	tr := &indexedTableRefIter{
